@@ -1,7 +1,8 @@
 (* Props/C14spans.v — C14, second layer: whole-document span theorems (Proofs/Spans*.v).
    Only `Theorem ... Proof. exact lemma. Qed.` + `Print Assumptions` + `Example`s. *)
-From TV Require Import Base.Prelude Base.Utf8 Base.Winnow Model.Tree Model.Parse Model.Document.
-From TV Require Import Proofs.SpansDefs Proofs.SpansDoc.
+From TV Require Import Base.Prelude Base.Utf8 Base.Winnow Model.Tree Model.Parse Model.Document Model.Encode.
+From TV Require Import Proofs.GrammarBase.
+From TV Require Import Proofs.SpansDefs Proofs.SpansDoc Proofs.SpansDespan Proofs.SpansExact Proofs.SpansReparse.
 
 (* 1. every span stored anywhere in a successfully parsed document (key reprs, key decor, value reprs and
       decor, array / inline-table trailing, table spans, array-of-tables spans, document trailing:
@@ -11,3 +12,58 @@ Theorem C14_spans_in_range : forall s d,
   Forall (fun sp => (fst sp <= snd sp)%N /\ (snd sp <= N.of_nat (length s))%N) (all_spans d).
 Proof. exact spans_in_range. Qed.
 Print Assumptions C14_spans_in_range.
+
+(* 2a. `value` stores as the value's span exactly the window of the text it consumed (the repr of a scalar,
+       the span of an array / inline table); that text is a non-empty prefix of the input; decor is cleared *)
+Theorem C14_value_span_is_consumed : forall i v i',
+  value_ i = Ok v i' ->
+  value_span v = Some (pos i, pos i') /\ (pos i < pos i')%N /\ value_decor v = decor_new REmpty REmpty
+  /\ exists t, rest i = t ++ rest i' /\ pos i' = (pos i + N.of_nat (length t))%N /\ t <> [].
+Proof. exact value_exact. Qed.
+Print Assumptions C14_value_span_is_consumed.
+
+(* 2b. `simple_key` stores as the key's repr exactly the window of the key token *)
+Theorem C14_key_span_is_consumed : forall i r k i',
+  simple_key i = Ok (r, k) i' ->
+  r = RSpanned (pos i) (pos i') /\ (pos i < pos i')%N
+  /\ exists t, rest i = t ++ rest i' /\ pos i' = (pos i + N.of_nat (length t))%N /\ t <> [].
+Proof. exact simple_key_span_exact. Qed.
+Print Assumptions C14_key_span_is_consumed.
+
+(* 2c. prefix-closedness of simple_key: on exactly the text it consumed it returns the same key and stops at
+       the end *)
+Theorem C14_simple_key_prefix_closed : forall i rw k i',
+  simple_key i = Ok (rw, k) i' ->
+  exists t, rest i = t ++ rest i' /\ pos i' = (pos i + N.of_nat (length t))%N
+            /\ simple_key (new_input t) = Ok (raw_with_span (0, N.of_nat (length t))%N, k) (mkIn [] (N.of_nat (length t)) 0).
+Proof. exact simple_key_prefix_closed. Qed.
+Print Assumptions C14_simple_key_prefix_closed.
+
+(* 2d. a key's span, used to slice the source, spells that same key (`cursor_of s i`: the cursor i points into s) *)
+Theorem C14_key_reparse : forall s i rw k i',
+  cursor_of s i -> simple_key i = Ok (rw, k) i' ->
+  rw = RSpanned (pos i) (pos i') /\
+  parse_key (slice s (pos i) (pos i')) = POk (raw_with_span (0, pos i' - pos i)%N, k).
+Proof. exact key_reparse. Qed.
+Print Assumptions C14_key_reparse.
+
+(* 2e. a value's span, used to slice the source, re-parses to a value with the same data (`absv`: decor, reprs,
+       spans and key spellings forgotten) — scalars, arrays and braces-delimited inline tables alike *)
+Theorem C14_value_reparse : forall s i v i',
+  cursor_of s i -> value_ i = Ok v i' ->
+  value_span v = Some (pos i, pos i') /\
+  exists v', parse_value_raw (slice s (pos i) (pos i')) = POk v' /\ absv v' = absv v.
+Proof. exact value_reparse. Qed.
+Print Assumptions C14_value_reparse.
+
+(* 5. after despan (ImDocument::into_mut) no spanned raw string and no value / table / array-of-tables span
+      remains anywhere in the tree *)
+Theorem C14_despan_all : forall s d r t,
+  tbl_despan s (doc_root d) = Some r -> raw_despan s (doc_trailing d) = Some t ->
+  tbl_nospan r = true /\ raw_nospan t = true /\ all_spans (mkDoc r t) = [].
+Proof. exact despan_all. Qed.
+Print Assumptions C14_despan_all.
+
+Theorem C14_despan_value : forall s v v', value_despan s v = Some v' -> value_nospan v' = true /\ value_spans v' = [].
+Proof. exact despan_value. Qed.
+Print Assumptions C14_despan_value.
